@@ -39,7 +39,7 @@ MANAGER_ONESTEP = dict(harness='c05_manager_steps', name='c05_manager_onestep',
 MANAGER_LOOP = dict(harness='c05_manager_loop',
                     covers=['c05l.dial.accepted', 'c05l.dial.refused', 'c05l.open.opened', 'c05l.open.failed', 'c05l.dial.established', 'c05l.dial.failed',
                             'c05l.inbound.admitted', 'c05l.inbound.established', 'c05l.closed', 'c05l.user.established', 'c05l.user.closed',
-                            'c05l.user.dial-failure', 'c05l.user.open-failure', 'c05l.protocol.dial-failure', 'c05l.accept-rollback', 'c05l.negotiate-refused'],
+                            'c05l.user.dial-failure', 'c05l.user.open-failure', 'c05l.protocol.dial-failure', 'c05l.accept-rollback', 'c05l.negotiate-refused', 'c05l.open.failed-without-errors'],
                     min_paths=1000, split={'quick': 5, 'thorough': 6}, params={'quick': {'steps': 3}, 'thorough': {'steps': 4}},
                     conform={'quick': 60, 'thorough': 500}, nvals=30)
 
@@ -304,11 +304,16 @@ prop('C13',
               min_paths=100, split=4, params={'quick': {'steps': 4}, 'thorough': {'steps': 6}}, conform={'quick': 200, 'thorough': 2000}, nvals=16),
          dict(harness='c13_inbound_bound', covers=['c13i.admitted', 'c13i.refused'], min_paths=16, split=0,
               params={'quick': {'steps': 4}, 'thorough': {'steps': 6}}, conform={'quick': 100, 'thorough': 1000}, nvals=10),
+         dict(harness='c13_request_flight', covers=['c13f.opened', 'c13f.request-future-finished', 'c13f.disconnected', 'c13f.reconnected', 'c13f.cancel', 'c13f.failed', 'c13f.response'],
+              min_paths=200, split=4, params={'quick': {'steps': 4, 'io_budget': 1, 'fifo_futures': 1}, 'thorough': {'steps': 5, 'io_budget': 2, 'fifo_futures': 1}}, conform={'quick': 200, 'thorough': 2000}, nvals=24),
      ],
-     assumptions=['tokio mpsc channels are modelled as bounded FIFOs that are never full in these scenarios; Sender::send resolves on first poll'],
+     assumptions=['tokio mpsc channels are modelled as bounded FIFOs that are never full in these scenarios; Sender::send resolves on first poll',
+                  'request futures: tokio timers never fire within the explored window (time-outs are outside the claim); a cancel is only issued while no reply is on its way, '
+                  'because the request future chooses among several ready select! branches at random, which a replay could not reproduce'],
      bounds={'peers': 1, 'events': 'quick 4, thorough 6 of send(dial/no dial) / connect / disconnect / dial failure / substream-open failure',
+             'requests in flight': 'two accepted requests on a connected peer, then quick 4 / thorough 5 events of substream opened (remote replies / idle / closes, carrier healthy or failing at the 1st-2nd write) / poll the request futures / disconnect / reconnect / cancel',
              'inbound bound': 'limit 1..2, 2 connected peers, quick 4 / thorough 6 inbound substreams, none of them read yet'},
-     outside=['responses, timeouts, cancellation, reading and answering inbound requests (futures over substream I/O and tokio timers)',
+     outside=['time-outs (tokio timers), reading and answering inbound requests',
               'several peers', 'the run() select loop'],
      )
 
